@@ -29,6 +29,7 @@ var (
 	ErrOutputValueZero                     = errors.New("value is zero")
 	ErrOutputMemoTooLarge                  = errors.New("memo is too large")
 	ErrUnmarshalEmptyTransfer              = errors.New("cannot unmarshal empty bytes as transfer")
+	ErrUnmarshalTrailingBytes              = errors.New("cannot unmarshal transfer with trailing bytes")
 	_                         chain.Action = (*Transfer)(nil)
 )
 
@@ -80,11 +81,13 @@ func UnmarshalTransfer(bytes []byte) (chain.Action, error) {
 	if bytes[0] != mconsts.TransferID {
 		return nil, fmt.Errorf("unexpected transfer typeID: %d != %d", bytes[0], mconsts.TransferID)
 	}
-	if err := codec.LinearCodec.UnmarshalFrom(
-		&wrappers.Packer{Bytes: bytes[1:]},
-		t,
-	); err != nil {
+	p := &wrappers.Packer{Bytes: bytes[1:]}
+	if err := codec.LinearCodec.UnmarshalFrom(p, t); err != nil {
 		return nil, err
+	}
+	// Ensure the encoding is canonical: no bytes may follow the encoded Transfer
+	if p.Offset != len(p.Bytes) {
+		return nil, ErrUnmarshalTrailingBytes
 	}
 	// Ensure that any parsed Transfer instance is valid
 	// and below MaxTransferSize
